@@ -516,6 +516,59 @@ fn temporary_target_case(ctx: &mut Ctx, idx: u64) {
     }
 }
 
+/// "when printed, compared with a scalar or used in arithmetic an array counts as its sequence length": a
+/// two-element array next to a scalar behaves like the number 2 next to that scalar, for every operator and in both
+/// operand orders. No model: two runs of rrss are compared. (The cells in which the pinned code does not go through
+/// the length are recorded findings, known_findings.json; any other cell is a violation.)
+fn array_as_length_case(ctx: &mut Ctx, idx: u64) {
+    use crate::mon::{self, ExecOpts, ExecOutcome};
+    const SCALARS: &[(&str, &str)] = &[
+        ("2", "number"), ("3", "number"), ("0", "number"), ("0.5", "number"),
+        ("\"2\"", "numeric_string"), ("\"1\"", "numeric_string"), ("\"3\"", "numeric_string"),
+        ("\"a\"", "other_string"), ("\"\"", "other_string"),
+        ("true", "true"), ("false", "false"), ("nothing", "null"), ("mysterious", "mysterious"),
+    ];
+    const OPS: &[(&str, &str)] = &[
+        ("is", "equality"), ("isnt", "equality"),
+        ("is less than", "ordering"), ("is greater than", "ordering"), ("is as low as", "ordering"), ("is as high as", "ordering"),
+        ("plus", "plus"), ("minus", "arithmetic"), ("times", "arithmetic"), ("over", "arithmetic"),
+    ];
+    let i = idx as usize;
+    let (scalar, kind) = SCALARS[i % SCALARS.len()];
+    let (op, class) = OPS[(i / SCALARS.len()) % OPS.len()];
+    let array_first = (i / (SCALARS.len() * OPS.len())) % 2 == 0;
+    let run = |lhs: &str, rhs: &str| -> Option<(String, bool)> {
+        let src = format!("rock Arr with \"p\", \"q\"\nput 2 into Len\nsay {} {} {}\n", lhs, op, rhs);
+        let prog = mon::parse_quiet(&src).ok()?;
+        let opts = ExecOpts { fuel: 1_000, log_events: false, log_dict: false, trap: true };
+        match mon::exec_guarded(&prog, b"", &opts) {
+            ExecOutcome::Done(r) => Some((String::from_utf8_lossy(&r.stdout).to_string(), r.result.is_ok())),
+            ExecOutcome::Panicked(..) => None,
+        }
+    };
+    ctx.eval();
+    let (with_array, with_length) = if array_first { (run("Arr", scalar), run("Len", scalar)) } else { (run(scalar, "Arr"), run(scalar, "Len")) };
+    ctx.sites.absorb();
+    match (with_array, with_length) {
+        (Some(a), Some(l)) => {
+            if a == l {
+                ctx.count("array_as_length_cells_held");
+            } else {
+                ctx.violation(
+                    &format!("array_does_not_count_as_its_length:{}:{}", class, kind),
+                    &format!(
+                        "`{}`: with the two-element array {:?} ({}), with the number 2 {:?} ({})",
+                        if array_first { format!("Arr {} {}", op, scalar) } else { format!("{} {} Arr", scalar, op) },
+                        a.0, if a.1 { "ok" } else { "runtime error" }, l.0, if l.1 { "ok" } else { "runtime error" }
+                    ),
+                    Json::obj().with("operator", Json::s(op)).with("scalar", Json::s(scalar)).with("array_first", Json::s(if array_first { "yes" } else { "no" })),
+                );
+            }
+        }
+        _ => ctx.count("array_as_length_cells_not_run"),
+    }
+}
+
 pub fn run(ctx: &mut Ctx) {
     if ctx.miri {
         ctx.cases("miri", ctx.nshards as u64, |ctx, rng, _| {
@@ -526,6 +579,7 @@ pub fn run(ctx: &mut Ctx) {
     }
     ctx.cases("fractional_index", 3_000, |ctx, rng, _| fractional_index_case(ctx, rng));
     ctx.cases("temporary_targets", TEMPORARY_TARGETS.len() as u64, |ctx, _, idx| temporary_target_case(ctx, idx));
+    ctx.cases("array_counts_as_its_length", 13 * 10 * 2, |ctx, _, idx| array_as_length_case(ctx, idx));
     ctx.cases("wide_and_deep", 77, |ctx, rng, idx| {
         if let Some(p) = wide_program(idx) {
             let c = exec_compare(ctx, "wide", &p, b"", &Spelling::canonical(), rng);
